@@ -2623,9 +2623,11 @@ def _write_filtered_contacts(warn_overflow: bool):
     contact_flex_out: wp.array[wp.vec2i],
     contact_elem_out: wp.array[wp.vec2i],
     contact_vert_out: wp.array[wp.vec2i],
+    contact_efc_address_out: wp.array2d[int],
     contact_worldid_out: wp.array[int],
     contact_type_out: wp.array[int],
     contact_geomcollisionid_out: wp.array[int],
+    contact_adhesion_out: wp.array[float],
     nacon_out: wp.array[int],
     # Data out:
     overflow_out: wp.array[int],
@@ -2735,6 +2737,11 @@ def _write_filtered_contacts(warn_overflow: bool):
     contact_worldid_out[id_] = cand_worldid[i]
     contact_type_out[id_] = 1
     contact_geomcollisionid_out[id_] = 0
+    # the slot may have been used by another contact in an earlier step: like write_contact,
+    # clear the per-slot fields that are otherwise only written for contacts that get efc rows
+    contact_adhesion_out[id_] = 0.0
+    for j in range(contact_efc_address_out.shape[1]):
+      contact_efc_address_out[id_, j] = -1
 
   return kernel
 
@@ -3753,9 +3760,11 @@ def _deduplicate_and_filter_candidates(
       d.contact.flex,
       d.contact.elem,
       d.contact.vert,
+      d.contact.efc_address,
       d.contact.worldid,
       d.contact.type,
       d.contact.geomcollisionid,
+      d.contact.adhesion,
       d.nacon,
       d.overflow,
     ],
